@@ -90,33 +90,40 @@ def rule_b(chk, c, cname):
     g = f.cfg()
     fd = f.params[1]
     inb, outb = BITS[cname]
-    # mask variable: assigned 0
+    # mask variable: what the kernel registration is made with
     mv = None
     for n in g.nodes:
-        if n.kind == 'stmt' and isinstance(n.ast, ast.Assign) and pat.is_const(n.ast.value, 0) and isinstance(n.ast.targets[0], ast.Name):
-            mv = n.ast.targets[0].id
+        if n.kind == 'stmt':
+            for r, c2 in pat.method_calls(n.ast, 'register'):
+                if r == 'self._poller' and len(c2.args) == 2 and isinstance(c2.args[1], ast.Name):
+                    mv = c2.args[1].id
     need(mv, f'C10.b: {cname}._updateRegistration has no mask variable')
-    for lst, bit, label in ((f'self._read', inb, 'read'), (f'self._write', outb, 'write')):
-        sets = [n for n in g.nodes if n.kind == 'stmt' and isinstance(n.ast, (ast.Assign, ast.AugAssign)) and mv in Q.node_defs(n) and bit in src(n.ast)]
-        ok = bool(sets)
-        path = None
-        for s in sets:
-            q = pat.guarded_by(g, s, pat.test_edge(lambda tt, pol: pat.fact_matches(pat.compare_fact(tt, pol), fd, ('in',), lst)))
-            if q is not None:
-                ok = False
-                path = q
-        # interest ⇒ bit
-        edges = [e for n in g.nodes if n.kind == 'test' for e in n.succ if pat.fact_matches(pat.compare_fact(n.ast, e.kind), fd, ('in',), lst)]
-        for e in edges:
-            if e.dst not in sets:
-                q = Q.escapes(g, [e.dst], lambda n: n in sets)
-                if q is not None:
-                    ok = False
-                    path = q
-        other = outb if bit == inb else inb
-        wrong = [s for s in sets if other in src(s.ast)]
-        chk.ob('b', f.ref, f'the {label} bit is set exactly when the descriptor is in the {label} interest list', ok and bool(edges) and not wrong,
-               loc(f, (sets or [g.entry])[0].ast if sets else f.node), path=pat.path_lines(path) if path else None, discr=f'bit:{label}')
+    # the mask is computed for the four combinations of membership in the two interest lists (the bits taken as 1 and 4), whatever way the code spells it
+    from sa import concrete
+    tests0 = [n for n in g.nodes if n.kind == 'test' and (src(n.ast) == mv or (isinstance(n.ast, ast.Compare) and src(n.ast.left) == mv))]
+    need(tests0, f'C10.b: {cname}._updateRegistration never tests the mask')
+    bad = {'read': [], 'write': []}
+    n_envs = 0
+    for r_ in (False, True):
+        for w_ in (False, True):
+            env = {f'${fd} in self._read': r_, f'${fd} in self._write': w_, f'${fd} not in self._read': not r_, f'${fd} not in self._write': not w_,
+                   '$' + inb: 1, '$' + outb: 4}
+            got = concrete.envs_at(g, g.entry, env, lambda n: n in tests0 or n in [x for x in g.nodes if x.kind == 'stmt' and any(
+                rr == 'self._poller' for rr, _c in pat.method_calls(x.ast, 'register'))])
+            n_envs += len(got)
+            for _n, e_ in got:
+                v = e_.get(mv, concrete.UNKNOWN)
+                if v is concrete.UNKNOWN or not isinstance(v, int):
+                    bad['read'].append(f'in _read={r_}, in _write={w_}: {mv} not determined')
+                    bad['write'].append(f'in _read={r_}, in _write={w_}: {mv} not determined')
+                    continue
+                if bool(v & 1) != r_:
+                    bad['read'].append(f'in _read={r_}, in _write={w_}: {mv}={v}')
+                if bool(v & 4) != w_ or (v & ~5):
+                    bad['write'].append(f'in _read={r_}, in _write={w_}: {mv}={v}')
+    for label in ('read', 'write'):
+        chk.ob('b', f.ref, f'the {label} bit is set exactly when the descriptor is in the {label} interest list', n_envs >= 4 and not bad[label],
+               loc(f, tests0[0].ast), detail='; '.join(bad[label][:3]) or f'{n_envs} valuations reach the mask test', discr=f'bit:{label}')
     mask_T = pat.test_edge(lambda tt, pol: (pol == 'T' and src(tt) == mv) or pat.fact_matches(pat.compare_fact(tt, pol), mv, ('!=', '>'), '0'))
     mask_F = pat.test_edge(lambda tt, pol: (pol == 'F' and src(tt) == mv) or pat.fact_matches(pat.compare_fact(tt, pol), mv, ('==',), '0'))
     reg = [n for n in g.nodes if n.kind == 'stmt' and any(r == 'self._poller' and len(c2.args) == 2 and src(c2.args[1]) == mv
@@ -156,7 +163,8 @@ def rule_b(chk, c, cname):
     # … possibly in a loop over the numbers the object is known under: a loop over a non-empty display (`{fileno, *known}`) runs at least once
     loops_ok = []
     for lp in g.nodes:
-        if lp.kind == 'for' and isinstance(lp.ast.iter, (ast.Set, ast.Tuple, ast.List)) and any(not isinstance(x, ast.Starred) for x in lp.ast.iter.elts):
+        its = list(pat.deref(f, lp.ast.iter)) if lp.kind == 'for' and isinstance(lp.ast.iter, ast.Name) else [lp.ast.iter] if lp.kind == 'for' else []
+        if its and all(isinstance(i_, (ast.Set, ast.Tuple, ast.List)) and any(not isinstance(x, ast.Starred) for x in i_.elts) for i_ in its):
             body = [e.dst for e in lp.succ if e.kind == 'T']
             if body and all(b_ in unr or Q.escapes(g, [b_], lambda n: n in unr, exits=('exit',), extra_exit=lambda n: n is lp) is None for b_ in body):
                 loops_ok.append(lp)
